@@ -92,7 +92,7 @@ def main(tier, seed, replay=None):
         if _per_kind[k] <= 3:                      # at most three replays per kind of failure
             _raw_violation(info, found)
     rep.violation = capped
-    ncirc = 40 if tier == "quick" else 400
+    ncirc = 40 if tier == "quick" else 1200
     files = []; metas = []
     dist = dict(circuits=0, clts=0, rows=0, missing_cells={})
     body = list(HEADER); names = []; cur = []
@@ -141,7 +141,7 @@ def main(tier, seed, replay=None):
             flush()
     flush()
     # stand-alone Chow-Liu trees: every evidence pattern
-    nclt = 40 if tier == "quick" else 300
+    nclt = 40 if tier == "quick" else 900
     for i in range(nclt):
         n = int(rs.randint(1, 6 if tier == "quick" else 8))
         clt = G.rand_clt(rs, list(range(n)))
